@@ -61,29 +61,37 @@ PureKinds(z) == {"tpos", "tnamed", "ifbr", "ifelse", "ifcond", "eqbr", "eqa", "e
 MixedPats(z) == { <<"tpos", "ifbr">>, <<"ifbr", "link">>, <<"link", "def">>, <<"def", "tpos">>, <<"ifcond", "swbr">>,
                   <<"eqbr", "swbr">>, <<"tnamed", "ifcond", "link">>, <<"ext", "ifbr">>, <<"pname", "ifelse">>,
                   <<"swval", "eqa">>, <<"link", "tpos", "def">> }
-Pats(z) == { <<k>> : k \in PureKinds(z) } \cup MixedPats(z)
 \* how deep: around the places where the constructs reach the limit (one, two or three path
 \* entries per rung), at the limit, and 2x, 5x, 10x (thorough: 3x, 20x) the limit
 Depths(z) == IF Tier = "thorough"
              THEN {L \div 3, (L \div 3) + 1, (L \div 2) - 1, L \div 2, (L \div 2) + 1, L - 1, L, L + 1, 2 * L, 3 * L, 5 * L, 10 * L, 20 * L}
              ELSE {(L \div 2) - 1, L \div 2, L - 1, L, L + 1, 2 * L, 5 * L, 10 * L}
+MixedDepths(z) == IF Tier = "thorough" THEN Depths(z) ELSE {L, 5 * L}
+MixedDeep(z) == { <<"tpos", "ifbr">>, <<"ifbr", "link">>, <<"eqbr", "swbr">>, <<"pname", "ifelse">>, <<"link", "tpos", "def">> }   \* quick: these at 10x too
 \* #invoke: every rung re-enters the expander from Lua (frame.args -> frame:preprocess)
-InvDepths(z) == IF Tier = "thorough" THEN {3, 19, 20, 21, L \div 2, L, 2 * L} ELSE {19, 20, L, 2 * L}
+InvDepths(z) == IF Tier = "thorough" THEN {3, 19, 20, 21, L \div 2, L, 2 * L} ELSE {20, L}
 InvPats(z) == { <<"inv">>, <<"inv", "ifbr">>, <<"tpos", "inv">> }
 
-\* nesting split between the page and template bodies
-BodyPats(z) == { <<"ifbr">>, <<"ifcond">>, <<"tpos">>, <<"link">>, <<"def">>, <<"pname">>, <<"swbr">>, <<"eqbr", "swbr">>, <<"link", "def">>, <<"tnamed", "ifelse">> }
-PagePats(z) == IF Tier = "thorough" THEN { <<"ifbr">>, <<"tpos">>, <<"link">>, <<"def", "ifcond">> } ELSE { <<"ifbr">>, <<"link", "tpos">> }
-PageDepths(z) == IF Tier = "thorough" THEN {0, 1, 40, L \div 2, L - 1} ELSE {0, 40}
-BodyDepths(z) == IF Tier = "thorough" THEN {L \div 2, L - 1, L, L + 1, 170, 2 * L, 5 * L, 10 * L, 20 * L} ELSE {L - 1, L + 1, 170, 5 * L, 10 * L}
+\* nesting split between the page and template bodies: <<page pattern, rungs on the page>> x body
+PageParts(z) == IF Tier = "thorough"
+                THEN { <<pp, m>> : pp \in { <<"ifbr">>, <<"tpos">>, <<"link">>, <<"def", "ifcond">> }, m \in {0, 1, 40, L \div 2, L - 1} }
+                ELSE { << <<"ifbr">>, 40 >> }
+BodyPats(z) == IF Tier = "thorough"
+               THEN { <<"ifbr">>, <<"ifcond">>, <<"tpos">>, <<"link">>, <<"def">>, <<"pname">>, <<"swbr">>, <<"eqbr", "swbr">>, <<"link", "def">>, <<"tnamed", "ifelse">> }
+               ELSE { <<"ifbr">>, <<"ifcond">>, <<"tpos">>, <<"link">>, <<"def">>, <<"eqbr", "swbr">> }
+BodyDepths(z) == IF Tier = "thorough" THEN {L \div 2, L - 1, L, L + 1, 170, 2 * L, 5 * L, 10 * L, 20 * L} ELSE {L + 1, 170, 10 * L}
+ChainPats(z) == IF Tier = "thorough" THEN { <<"ifbr">>, <<"link">>, <<"def">>, <<"tpos", "ifcond">> } ELSE { <<"ifbr">>, <<"link">> }
 
 LadderCases ==
-  { <<Seg(p, n)>> : p \in Pats(0), n \in Depths(0) }
+  IF Tier = "demo" THEN { <<Seg(<<"link">>, 10 * L)>>, <<Seg(<<"ifbr">>, 0), Seg(<<"ifbr">>, 10 * L)>> } ELSE
+  { <<Seg(<<k>>, n)>> : k \in PureKinds(0), n \in Depths(0) }
+  \cup { <<Seg(p, n)>> : p \in MixedPats(0), n \in MixedDepths(0) }
+  \cup { <<Seg(p, 10 * L)>> : p \in MixedDeep(0) }
+  \cup { <<Seg(<<"link", "tpos">>, 3), Seg(bp, k)>> : bp \in BodyPats(0), k \in {L - 1, 5 * L} }
   \cup { <<Seg(p, n)>> : p \in InvPats(0), n \in InvDepths(0) }
-  \cup { <<Seg(pp, m), Seg(bp, k)>> : pp \in PagePats(0), m \in PageDepths(0), bp \in BodyPats(0), k \in BodyDepths(0) }
+  \cup { <<Seg(pm[1], pm[2]), Seg(bp, k)>> : pm \in PageParts(0), bp \in BodyPats(0), k \in BodyDepths(0) }
   \* two bodies deep: page -> D2 -> D3
-  \cup { <<Seg(<<"ifbr">>, m), Seg(bp, k), Seg(bp, k)>> : m \in {0, 20}, bp \in { <<"ifbr">>, <<"link">>, <<"def">>, <<"tpos", "ifcond">> },
-                                                           k \in {30, 2 * L, 6 * L} }
+  \cup { <<Seg(<<"ifbr">>, m), Seg(bp, k), Seg(bp, k)>> : m \in {0, 20}, bp \in ChainPats(0), k \in {30, 6 * L} }
 
 InitD == case \in { CaseOf(s) : s \in LadderCases }
 SpecD == InitD /\ [][Next]_case
@@ -122,9 +130,9 @@ SegSrc(c, i) ==
           full |-> IF Small(c) THEN Src(SegContent(c.segs, i)) ELSE <<>>]>> \o SegSrc(c, i + 1)
 
 EmitD(c, r, a) ==
-  PrintT(<<"CASE", ToJson([segs |-> SegSrc(c, 1), small |-> Small(c),
+  PrintT(<<"CASE", ToJson([segs |-> SegSrc(c, 1), small |-> Small(c), base |-> LibBase,
                            out |-> r.out, msgs |-> r.st.msgs, cls |-> Cls(r), peak |-> r.st.peak,
-                           asis_out |-> a.out, asis_cls |-> Cls(a), asis_peak |-> a.st.peak,
+                           asis_out |-> a.out, asis_msgs |-> a.st.msgs, asis_cls |-> Cls(a), asis_peak |-> a.st.peak,
                            \* the as-is design lets the recursion leave the region the ideal design stays in
                            asis_overrun |-> IsOverrun(a)])>>)
 
